@@ -326,3 +326,14 @@ pub axiom fn axiom_string_ref_eq<'a, 'b>(a: &'a String, b: &'b String)
         <&'a String as vstd::std_specs::cmp::PartialEqSpec<&'b String>>::obeys_eq_spec(),
         <&'a String as vstd::std_specs::cmp::PartialEqSpec<&'b String>>::eq_spec(&a, &b) == (a@ == b@);
 }
+verus! {
+/// floor is super-additive: muldiv(r,a,t) + muldiv(r,b,t) <= muldiv(r,a+b,t)
+pub proof fn lemma_muldiv_superadd(r: nat, a: nat, b: nat, t: nat)
+    requires t > 0,
+    ensures muldiv(r, a, t) + muldiv(r, b, t) <= muldiv(r, a + b, t),
+{
+    let x = r * a; let y = r * b;
+    assert(r * (a + b) == x + y) by (nonlinear_arith) requires x == r * a, y == r * b;
+    assert(x / t + y / t <= (x + y) / t) by (nonlinear_arith) requires t > 0;
+}
+}
